@@ -317,8 +317,8 @@ static uint32_t P_sched_getcpu(void) { return 0; }
 static uint64_t P_sysconf(uint32_t n) { (void)n; return 1; }
 static uint32_t P_getpagesize(void) { return 4096; }
 
-static uint64_t P_sys_membarrier(uint32_t cmd, uint32_t flags, uint32_t cpu) {
-  (void)flags; (void)cpu;
+static uint64_t P_sys_membarrier(uint32_t cmd, uint32_t flags) {
+  (void)flags;
 #if !RT_MEMBARRIER
   rt_errno[rt_cur] = RT_ENOSYS; return (uint64_t)-1;
 #else
